@@ -1,0 +1,64 @@
+// The Licensed Work is (c) 2022 Sygma
+// SPDX-License-Identifier: LGPL-3.0-only
+
+package config
+
+import (
+	"fmt"
+	"math"
+	"reflect"
+
+	"github.com/mitchellh/mapstructure"
+)
+
+// ExactNumbersHook is a mapstructure decode hook for configuration structs. mapstructure converts a
+// number into an integer field with a plain Go conversion: 1.5 becomes 1, 2^63 becomes -2^63 and (when
+// weakly typed) -1 becomes 2^64-1. A setting has to be loaded as written or not at all, so a number that
+// the integer field it is written for cannot hold exactly - a non-integral, out-of-range or, for an
+// unsigned field, negative number - is refused here. Everything else is passed on unchanged.
+func ExactNumbersHook(from reflect.Type, to reflect.Type, data interface{}) (interface{}, error) {
+	target := reflect.New(to).Elem()
+	value := reflect.ValueOf(data)
+
+	fits := true
+	switch to.Kind() {
+	case reflect.Int, reflect.Int8, reflect.Int16, reflect.Int32, reflect.Int64:
+		switch from.Kind() {
+		case reflect.Int, reflect.Int8, reflect.Int16, reflect.Int32, reflect.Int64:
+			fits = !target.OverflowInt(value.Int())
+		case reflect.Uint, reflect.Uint8, reflect.Uint16, reflect.Uint32, reflect.Uint64, reflect.Uintptr:
+			fits = value.Uint() <= math.MaxInt64 && !target.OverflowInt(int64(value.Uint()))
+		case reflect.Float32, reflect.Float64:
+			f := value.Float()
+			// -2^63 and 2^63 are float64 values; every integral float64 in between is an int64
+			fits = f == math.Trunc(f) && f >= -(1<<63) && f < 1<<63 && !target.OverflowInt(int64(f))
+		}
+	case reflect.Uint, reflect.Uint8, reflect.Uint16, reflect.Uint32, reflect.Uint64, reflect.Uintptr:
+		switch from.Kind() {
+		case reflect.Int, reflect.Int8, reflect.Int16, reflect.Int32, reflect.Int64:
+			fits = value.Int() >= 0 && !target.OverflowUint(uint64(value.Int()))
+		case reflect.Uint, reflect.Uint8, reflect.Uint16, reflect.Uint32, reflect.Uint64, reflect.Uintptr:
+			fits = !target.OverflowUint(value.Uint())
+		case reflect.Float32, reflect.Float64:
+			f := value.Float()
+			fits = f == math.Trunc(f) && f >= 0 && f < 1<<64 && !target.OverflowUint(uint64(f))
+		}
+	}
+	if !fits {
+		return nil, fmt.Errorf("number %v is not a value of type %s", data, to)
+	}
+	return data, nil
+}
+
+// DecodeExact decodes input into output like mapstructure.Decode, refusing numbers that the integer
+// field they are written for cannot hold exactly (see ExactNumbersHook).
+func DecodeExact(input interface{}, output interface{}) error {
+	decoder, err := mapstructure.NewDecoder(&mapstructure.DecoderConfig{
+		DecodeHook: ExactNumbersHook,
+		Result:     output,
+	})
+	if err != nil {
+		return err
+	}
+	return decoder.Decode(input)
+}
